@@ -175,6 +175,22 @@ def run_delete(tier, funcs, index, enums, res, text):
                      "descends; a directory is removed only when nothing is left in it), what is left afterwards, -delete implies -depth, status non-zero iff a removal failed or an entry was diagnosed")
 
 
+def run_files0(tier, funcs, index, enums, res):
+    import c18_files0 as f0
+    for n in ([1, 2, 3] if tier == "quick" else [1, 2, 3, 4]):
+        r = f0.explore(n, funcs, index, enums)
+        res["functions_executed"].update(r.pop("functions_executed"))
+        for v in r.pop("violations"):
+            res["violations"].append({"key": "files0 | " + v["what"].split("[")[0][:50], "summary": "%s: %s" % (" ".join(v["tokens"] or []), v["what"]), "replayer": "files0_cli",
+                                      "tokens": v["tokens"], "what": v["what"]})
+        for k, c in r.pop("unsupported").items():
+            res["unsupported"][k] = res["unsupported"].get(k, 0) + c
+        r["bound"] = "-files0-from: %d tokens over %d words" % (n, len(f0.VOCAB))
+        res["runs"].append(r)
+    res["target"] += "; -files0-from: do_find + parse_args + the expression parser + parse_files0_args with File::open / read_to_end as a model over six NUL-separated name lists and a missing file"
+    res["bounds"] += ("; -files0-from: every command line of 1..%d tokens over %r; file contents %r" % (3 if tier == "quick" else 4, f0.VOCAB, {k: v.decode() for k, v in f0.FILES.items()}))
+
+
 def run_exec(prop, tier, funcs, index, enums, res):
     import c08_exec
     kinds = ["multi", "multi_dir", "multi_quit", "multi_two"] if prop == "C08" else ["single", "single_dir"]
@@ -366,6 +382,8 @@ def main():
         run_startpoints(tier, funcs, index, enums, res)
         if prop == "C02":
             run_walk(tier, funcs, index, enums, res, text)
+        else:
+            run_files0(tier, funcs, index, enums, res)
     elif prop == "C03":
         res["target"], res["bounds"] = "", ""
         run_walk(tier, funcs, index, enums, res, text)
